@@ -478,6 +478,37 @@ def r8_global_precision_switches(ctx, rid):
         raise AnalysisError(f"{rid}: no use of a process-global precision switch found (JaxBackend.__init__ sets jax_enable_x64 on the pinned tree)")
 
 
+def r9_number_operands_take_the_model_precision(ctx, rid):
+    """A backend helper that wraps a plain Python number into a backend array (torch `as_tensor` / `tensor`, jax/numpy `asarray` /
+    `array`) must give it the dtype of the array operand it is combined with: without `dtype=` the library default applies (float32
+    on torch), so in a float64 model the constant 0.7 becomes 0.699999988 on that backend only."""
+    regs = {be: H.Registry(ctx, be) for be in ("base", "torch", "jax")}
+    n = 0
+    for be, r in regs.items():
+        for key in sorted(r.entries):
+            src = r.def_source(key)
+            if not src or src[2] != "pydef":
+                continue
+            fn = H.parse_pydef(src[0])
+            params = [a.arg for a in fn.args.args]
+            for c in ast.walk(fn):
+                if isinstance(c, ast.Call) and call_name(c) in ("as_tensor", "tensor", "asarray", "array") and c.args \
+                        and isinstance(c.args[0], ast.Name) and c.args[0].id in params and len(params) > 1:
+                    n += 1
+                    kws = {k.arg for k in c.keywords}
+                    construct = f"{r.module.rel}::{r.name}['{key}'] number operand {ast.unparse(c)[:50]}"
+                    if "dtype" in kws or len(c.args) > 1:
+                        ob = ctx.ok(rid, None, None, f"`{ast.unparse(c)}` in helper `{key}` ({be}) passes the dtype of the array operand")
+                    else:
+                        ob = ctx.violation(rid, None, None, f"helper `{key}` ({be}) converts its operand with `{ast.unparse(c)}` - no dtype: a Python number "
+                                                           f"becomes an array of the library's DEFAULT precision (float32 on torch) whatever the model's "
+                                                           f"precision, so this backend computes with a rounded constant while the others do not")
+                    ob.construct, ob.loc = construct, f"{r.module.rel}:{src[1].lineno}"
+    if n == 0:
+        ctx.ok(rid, None, None, "no backend helper converts a plain number operand into an array (nothing to decide)",
+               construct="backend helper registries::number operands", loc="pyrates/backend/torch/torch_funcs.py:1", nontrivial=False)
+
+
 RULES = [
     ("C02-R1", r1_interp, 3),
     ("C02-R2", r2_solver_siblings, 9),
@@ -487,4 +518,5 @@ RULES = [
     ("C02-R6", r6_assignment_hooks_assign, 3),
     ("C02-R7", r_str_membership, 1),
     ("C02-R8", r8_global_precision_switches, 1),
+    ("C02-R9", r9_number_operands_take_the_model_precision, 1),
 ]
